@@ -222,6 +222,7 @@ func TestReplay(t *testing.T) {
 	})
 	r, err := rig.New(rig.Options{EventMgr: mgr, Mutate: func(c *config.Config) {
 		c.OnlineMode = cfgOnline
+		c.ForceKeyAuthentication = false // 1.19 - 1.19.2 clients without a player key may log in
 		c.Auth.SessionServerURL = (*configutil.URL)(ss.URL())
 	}})
 	if err != nil {
@@ -233,7 +234,7 @@ func TestReplay(t *testing.T) {
 	if err != nil {
 		t.Fatal(err)
 	}
-	protos := []int{rig.P1_8, rig.P1_20, rig.P1_20_3, rig.P1_21}
+	protos := []int{rig.P1_8, rig.P1_20, rig.P1_20_3, rig.P1_21, rig.P1_19, rig.P1_19_1}
 	var mu sync.Mutex
 	var wg sync.WaitGroup
 	sem := make(chan struct{}, 24)
@@ -372,7 +373,21 @@ func TestReplay(t *testing.T) {
 							en.sid = javaHex(hsh.Sum(nil))
 							w.mu.Unlock()
 						}
-						werr = c.WritePacket(rig.SBLoginEncResp, (&mcwire.Buf{}).Bytes(encSec).Bytes(encTok).B)
+						body := (&mcwire.Buf{}).Bytes(encSec)
+						if proto == rig.P1_19 || proto == rig.P1_19_1 {
+							// 1.19 - 1.19.2: either the verify token (flag true) or salt + signature (flag false).
+							// The client of these runs has no player key, so a salt + signature answer carries
+							// nothing the proxy could verify: it is sent in place of every non-exact token class
+							// on every second history.
+							if s.Tok != "exact" && hi%2 == 0 {
+								body.Bool(false).I64(rng.Int63()).Bytes(encTok)
+							} else {
+								body.Bool(true).Bytes(encTok)
+							}
+						} else {
+							body.Bytes(encTok)
+						}
+						werr = c.WritePacket(rig.SBLoginEncResp, body.B)
 						// like vanilla, the client switches to encryption right after sending
 						_ = c.EnableEncryption(secret)
 					case "plugin":
